@@ -1,4 +1,5 @@
 """C15 - generation is a pure function of its inputs: deterministic and thread-safe."""
+import re
 import common
 from common import CERT_FN, CSR_FN, CRL_FN, SIGN_DER
 import c02
@@ -37,6 +38,10 @@ TYPES = ["certificate::CertificateParams", "certificate::Certificate", "crl::Cer
 NONDET = ("HashMap::iter", "HashMap::keys", "HashMap::values", "HashMap::into_iter", "HashMap::drain", "HashMap::iter_mut", "HashMap::values_mut", "hash_map::", "HashSet::iter", "HashSet::into_iter",
           "SystemTime::now", "Instant::now", "OffsetDateTime::now_utc", "OffsetDateTime::now_local", "SystemRandom", "rand::", "getrandom", "std::env::", "thread::current", "ThreadId", "RandomState::new", "std::process::id",
           "LocalKey", "thread_local", "OnceLock", "OnceCell", "LazyLock", "Mutex", "RwLock", "atomic::", "Cell::", "RefCell", "std::fs::", "std::net::Tcp", "std::net::Udp", "ToSocketAddrs", "hostname")
+
+
+# any way of enumerating a hash container (method or trait form, by value / reference / draining)
+HASH_ENUM = re.compile(r"Hash(Map|Set)\b.*\b(iter|iter_mut|keys|values|values_mut|into_iter|into_keys|into_values|drain|extract_if|retain|union|intersection|difference|symmetric_difference)\b")
 
 
 def callgraph(crate, roots_, cut):
@@ -113,7 +118,7 @@ def run(ctx):
         rep.floor("C15.freeze", "statics (%s)" % cfg, ns, 8)
         # nondeterminism in the TBS call graph
         seen, callees = callgraph(crate, [CERT_FN, CSR_FN, CRL_FN, "certificate::CertificateParams::signed_by", "certificate::CertificateParams::self_signed", "csr::CertificateSigningRequestParams::signed_by", "crl::CertificateRevocationListParams::signed_by"], {"key_pair::KeyPair::sign"})
-        bad = {c: sorted(v) for c, v in callees.items() if any(x in c for x in NONDET)}
+        bad = {c: sorted(v) for c, v in callees.items() if any(x in c for x in NONDET) or HASH_ENUM.search(c)}
         rep.ob("C15.nondet", "%s|tbs-call-graph" % cfg, not bad, "no nondeterministic source (hash-order iteration, clock, randomness, environment, thread identity) is reachable from the to-be-signed writers", found=bad)
         rep.floor("C15.nondet", "functions in the TBS call graph (%s)" % cfg, len(seen), 25)
         if cfg != "K3":
